@@ -121,13 +121,30 @@ class WriteLog:
     def __init__(self, n):
         self.n = n
         self.writes = []
+        self.resized = False
 
     def __len__(self):
         return self.n
 
     def __setitem__(self, i, v):
         if isinstance(i, slice):
-            raise core.Unsupported('slice assignment on pixel buffer')
+            # bytearray slice assignment: a replacement of a different length
+            # RESIZES the buffer (recorded; the oracle checks the length)
+            if i.step not in (None, 1):
+                raise core.Unsupported('extended slice on pixel buffer')
+            a = 0 if i.start is None else i.start
+            b = self.n if i.stop is None else i.stop
+            width = concretize(b - a)
+            vals = list(bytes_items(v)) if not isinstance(v, list) else v
+            if width < 0:
+                width = 0
+            if len(vals) != width:
+                self.n += len(vals) - width
+                self.resized = True
+            for k, x in enumerate(vals[:max(width, 0)] if len(vals) >= width
+                                  else vals):
+                self[a + k] = x
+            return
         if not (0 <= v):
             raise ValueError('byte must be in range(0, 256)')
         if not (v <= 255):
@@ -148,12 +165,13 @@ class WriteLog:
         return out
 
 
-def map_apply(ctx, w, h, sentinel=False):
+def map_apply(ctx, w, h, sentinel=False, npix=None):
     from minecraft.networking.packets.clientbound.play import MapPacket
     MW = 128
     ox = ctx.int('off_x', 0, MW - w)
     oz = ctx.int('off_z', 0, MW - h)
-    pix = ctx.bytes('pixels', w * h)
+    npix = w * h if npix is None else npix
+    pix = ctx.bytes('pixels', npix)
     pool = [3, 7, 11]
     map_id = pool[concretize(ctx.int('map_sel', 0, 2))]
     scale = ctx.int('scale', 0, 4)
@@ -202,8 +220,12 @@ def map_apply(ctx, w, h, sentinel=False):
     if sentinel:
         k = (row - E(oz)) + h * (col - E(ox))       # transposed: wrong
     patch = pitems[0]
-    for i in range(1, w * h):
+    for i in range(1, npix):
         patch = z3.If(k == i, pitems[i], patch)
+    if npix < w * h:
+        # a short last row: cells of the rectangle beyond the data keep
+        # their content
+        inside = z3.And(inside, z3.ULT(k, npix))
     old_t = z3.BitVecVal(0, 8) if created else (
         z3.BitVecVal(old[0], 8) if ctx.mode == 'conc'
         else bytes_items(old)[0])
@@ -320,6 +342,19 @@ def records(ctx, sentinel=False):
         __slots__ = 'x', 'y', 'z', 'block_state_id'
     r2 = Other(x=A[0], y=A[1], z=A[2], block_state_id=A[3])
     conds.append(z3.BoolVal(not (r1 == r2) and (r1 != r2)))
+    # ... nor does a record equal an instance of its own sub- or superclass
+    # (equality is type-exact and field-wise; equal records hash equally)
+    from minecraft.networking.packets.clientbound.play import \
+        PlayerListItemPacket as PLI
+    u = 'u%d' % concretize(ctx.int('uuid_sel', 0, 1))
+    base = PLI.Action(uuid=u)
+    sub = PLI.RemovePlayerAction(uuid=u)
+    sub2 = PLI.UpdateLatencyAction(uuid=u, ping=A[0])
+    for x, y in ((base, sub), (sub, base), (base, sub2), (sub2, base)):
+        e2 = x == y
+        conds.append(z3.BoolVal(not bool(e2) and bool(x != y)))
+        if e2:
+            conds.append(z3.BoolVal(hash(x) == hash(y)))
     conds.append(z3.BoolVal(isinstance(repr(a), str)))
     if sentinel:
         conds.append(z3.BoolVal(bool(eq)))
@@ -509,6 +544,11 @@ def instances(tier, seed):
     for w, h in shapes:
         out.append(Instance('map_apply:%dx%d' % (w, h), 'map_apply',
                             {'w': w, 'h': h}, W=64, budget_s=1800))
+    # pixel counts that are not a multiple of the width (short last row)
+    out.append(Instance('map_apply:3x3:7px', 'map_apply',
+                        {'w': 3, 'h': 3, 'npix': 7}, W=64, budget_s=1800))
+    out.append(Instance('map_apply:2x2:3px', 'map_apply',
+                        {'w': 2, 'h': 2, 'npix': 3}, W=64, budget_s=1800))
     for L in (1, 2) + ((3,) if tier == 'thorough' else ()):
         out.append(Instance('player_list:%d' % L, 'player_list',
                             {'length': L}, W=64, budget_s=3000,
